@@ -428,6 +428,10 @@ func emitSites(p *pkg, server *pkg, out string) {
 	}
 	lf.pf("\n]\n")
 	lf.pf("def poolHashes : List (String × Nat) := [(\"getBuffer\", %d), (\"saveBuffer\", %d)]\n\n", p.bodyHash("getBuffer"), p.bodyHash("saveBuffer"))
+	p.emitGlobalWrites(lf, "lib")
+	if server != nil {
+		server.emitGlobalWrites(lf, "server")
+	}
 
 	// (4) I/O error handling in writer.go / reader.go: calls whose error result is dropped
 	lf.pf("def ioFuncs : List IOFact := [\n")
